@@ -351,8 +351,8 @@ def run_rust(doc):
     spec = model.create_lsp_model([copy.deepcopy(doc)])
     text = rust_utils.generate_lib_rs(spec)
     items = rustparse.parse(text)
-    a, notes = rustimage.spec_rows(S)
-    b = rustimage.impl_rows(S, items)
+    a, notes = rustimage.spec_rows(S, with_serde_arms=True)
+    b = rustimage.impl_rows(S, items, text)
     rustimage.resolve_literals(S, a, b, items)
     return a, b, {}, notes
 
